@@ -217,7 +217,7 @@ Print Assumptions C09_seed_rows_eq_dense.
 
 (* ---------------------------------------------------------------- non-vacuity *)
 (* a concrete configuration meeting every hypothesis of the theorems above: 3 channels of 7 samples,
-   NFFT 4, default overlap (3 windows), band [1, 3), pairs incl. a repeated, a self and a reversed one *)
+   NFFT 4, default overlap (2 windows; 1 window for 3 samples), band bins [1, 3), pairs incl. a repeated, a self and a reversed one *)
 Example C09_nonvacuous : nonvac_statement.
 Proof. exact nonvac_proof. Qed.
 (* and one where the coherency exists in Q[i] (a self pair: the value 1) *)
